@@ -804,7 +804,10 @@ class Interp:
             r = a is b or (a is None and b is None)
             return r if isinstance(op, ast.Is) else not r
         if isinstance(op, (ast.In, ast.NotIn)):
-            r = (a in b) if isinstance(b, (set, frozenset)) else any(self.equal(a, x) for x in self.iterate(b))
+            if isinstance(b, str):
+                r = isinstance(a, str) and a in b
+            else:
+                r = (a in b) if isinstance(b, (set, frozenset)) else any(self.equal(a, x) for x in self.iterate(b))
             return r if isinstance(op, ast.In) else not r
         if isinstance(op, (ast.Eq, ast.NotEq)):
             r = self.equal(a, b)
